@@ -107,6 +107,9 @@ func Main() {
 		for _, v := range r.Viols {
 			fmt.Println("  viol:", v.Sig, "|", firstLines(v.Detail, 6))
 		}
+		for _, o := range SortedOutcomes(r.Outcomes, 100) {
+			fmt.Println("  outcome:", o[:strings.LastIndex(o, " ×")])
+		}
 		return
 	}
 	if len(args) < 2 {
@@ -216,6 +219,8 @@ func runCheck(p *Property, tier string) int {
 		"distinct_outcomes":             len(a.Outcomes),
 		"outcome_histogram":             SortedOutcomes(a.Outcomes, 40),
 		"determinism_rechecks":          a.Replays,
+		"state_cache_hits":              a.CacheHits,
+		"noop_excursions_pruned":        a.Pruned,
 		"horizon_hits":                  a.Horizons,
 		"budget_cut":                    a.Cut,
 		"max_decision_depth":            a.MaxDepth,
